@@ -21,6 +21,8 @@ enum MinterSel {
     Third,
     Deployer,
     Service,
+    /// the all-zero account: an address like any other, not a way of saying "no minter"
+    Zero,
 }
 
 #[derive(Clone, Debug, Serialize, Deserialize)]
@@ -53,7 +55,7 @@ struct Model {
 
 struct Ctx {
     iw: ItsWorld,
-    /// address universe: 0,1 = deployers U0 U1; 2 = third party; 3 = ITS; 4 = owner
+    /// address universe: 0,1 = deployers U0 U1; 2 = third party; 3 = ITS; 4 = owner; 5 = the all-zero account
     uni: Vec<Address>,
     ids_local: Vec<Vec<[u8; 32]>>,
     ids_canon: Vec<[u8; 32]>,
@@ -118,7 +120,14 @@ impl Scenario for C11 {
         for id in &all_ids {
             iw.seat_token(id);
         }
-        let uni = vec![iw.users[0].clone(), iw.users[1].clone(), iw.users[2].clone(), iw.its.clone(), iw.owner.clone()];
+        let uni = vec![
+            iw.users[0].clone(),
+            iw.users[1].clone(),
+            iw.users[2].clone(),
+            iw.its.clone(),
+            iw.owner.clone(),
+            Address::from_string(&soroban_sdk::String::from_str(&iw.w.env, "GAAAAAAAAAAAAAAAAAAAAAAAAAAAAAAAAAAAAAAAAAAAAAAAAAAAAWHF")),
+        ];
         (Ctx { iw, uni, ids_local, ids_canon, all_ids }, Model { advances: 0, reg: BTreeMap::new() })
     }
 
@@ -134,8 +143,9 @@ impl Scenario for C11 {
             for salt in 0..2usize {
                 if !self.thorough && deployer == 1 && salt == 1 { continue; }
                 for supply in [5i128, 0, -1] {
-                    for minter in [MinterSel::None, MinterSel::Third, MinterSel::Deployer, MinterSel::Service] {
+                    for minter in [MinterSel::None, MinterSel::Third, MinterSel::Deployer, MinterSel::Service, MinterSel::Zero] {
                         if !self.thorough && deployer == 1 && minter != MinterSel::Third { continue; }
+                        if minter == MinterSel::Zero && (deployer == 1 || supply < 0) { continue; }
                         v.push(Act::Deploy { deployer, salt, supply, minter, meta: 0, auth: true });
                     }
                 }
@@ -148,7 +158,7 @@ impl Scenario for C11 {
         v.push(Act::RegisterCanonical(0));
         v.push(Act::RegisterCanonical(1));
         for id in 0..3u8 {
-            for minter in 0..3u8 {
+            for minter in 0..4u8 {
                 v.push(Act::RemoteDeploy { id, minter });
             }
         }
@@ -178,6 +188,7 @@ impl Scenario for C11 {
                     MinterSel::Third => Some(2),
                     MinterSel::Deployer => Some(*deployer),
                     MinterSel::Service => Some(3),
+                    MinterSel::Zero => Some(5),
                 };
                 let minter_val = match minter_ix { None => ScVal::Void, Some(i) => w.sc_addr_val(&ctx.uni[i]) };
                 let signers = if *auth { vec![d.clone()] } else { vec![iw.users[2].clone()] };
@@ -254,7 +265,9 @@ impl Scenario for C11 {
                 let (mbytes, m_ok, m_ix): (Vec<u8>, bool, Option<usize>) = match minter {
                     0 => (vec![], true, None),
                     1 => (addr_xdr(&iw.sc(&iw.users[2])), true, Some(2)),
-                    _ => (vec![9, 9, 9], false, None),
+                    2 => (vec![9, 9, 9], false, None),
+                    // well-formed XDR, but of a string, not of an address
+                    _ => (xdr(&sstr("GAAAAAAAAAAAAAAAAAAAAAAAAAAAAAAAAAAAAAAAAAAAAAAAAAAAAWHF")), false, None),
                 };
                 // announced metadata: short for the minter-less request, longer than one ABI word otherwise
                 let (rname, rsym): (Vec<u8>, Vec<u8>) = if *minter == 0 {
@@ -378,7 +391,7 @@ fn main() {
         let s = C11 { thorough, chains: if thorough { vec!["stellar", "stellar-testnet"] } else { vec!["stellar"] } };
         let mut o = Opts::new(tier, if thorough { 5 } else { 3 });
         o.min_depth = 2;
-        o.rule = "histories over deploy_interchain_token (deployer U0/U1, 2 salts, supply 5/0/-1, minter none / third party / the deployer / the service itself, 5 metadata shapes incl. decimals 255, 256, empty name, empty symbol, multi-byte; authorised by the deployer or by someone else), register_canonical_token (2 assets, repeated), remote deploy messages (short metadata / name and symbol longer than 32 bytes; fresh id, id of a local token, id of a canonical registration; minter none / valid / undecodable); native seats behind all 7 ids. After every new state: token_address / token_manager_type of all 7 ids vs the write-once model; for every service-deployed token token_id, name, symbol, decimals, owner, deployer balance, is_minter for 5 universe addresses, and an approved inbound transfer executed on a snapshot; ids and addresses from independent keccak/XDR/sha256 derivations".into();
+        o.rule = "histories over deploy_interchain_token (deployer U0/U1, 2 salts, supply 5/0/-1, minter none / third party / the deployer / the service itself / the all-zero account, 5 metadata shapes incl. decimals 255, 256, empty name, empty symbol, multi-byte; authorised by the deployer or by someone else), register_canonical_token (2 assets, repeated), remote deploy messages (short metadata / name and symbol longer than 32 bytes; fresh id, id of a local token, id of a canonical registration; minter none / valid / not XDR / XDR of a string); native seats behind all 7 ids. After every new state: token_address / token_manager_type of all 7 ids vs the write-once model; for every service-deployed token token_id, name, symbol, decimals, owner, deployer balance, is_minter for 5 universe addresses, and an approved inbound transfer executed on a snapshot; ids and addresses from independent keccak/XDR/sha256 derivations".into();
         (s, o)
     });
 }
